@@ -255,10 +255,27 @@ def _assert_repo():
         raise HarnessError(f"a5 imported from {path}, expected under {REPO}")
 
 
+class ShardTimeout(BaseException):
+    pass
+
+
+def _on_alarm(signum, frame):
+    raise ShardTimeout()
+
+
 def _run_task(task):
     prop, stage_name, shard, nshards, seed, tier = task
     t0 = time.time()
     col = Collector()
+    # watchdog: a shard that does not come back (e.g. the library loops forever on some input) is reported as
+    # inconclusive (harness error, exit 2), never as a violation and never as a pass
+    import signal
+    limit = int(os.environ.get("VERIF_SHARD_TIMEOUT", "900" if tier == "quick" else "14400"))
+    try:
+        signal.signal(signal.SIGALRM, _on_alarm)
+        signal.alarm(limit)
+    except (ValueError, OSError):
+        pass
     try:
         _assert_repo()
         mod = importlib.import_module(f"checks.{prop.lower()}")
@@ -270,9 +287,17 @@ def _run_task(task):
             col.frozen = False
             col.violation(v)
         return {"stage": stage_name, "shard": shard, "ok": True, "col": col.dump(), "wall": time.time() - t0}
+    except ShardTimeout:
+        return {"stage": stage_name, "shard": shard, "ok": False, "col": col.dump(), "wall": time.time() - t0,
+                "error": f"shard did not finish within {limit} s: inconclusive (not a violation)"}
     except BaseException as e:  # noqa: BLE001
         return {"stage": stage_name, "shard": shard, "ok": False, "col": col.dump(), "wall": time.time() - t0,
                 "error": f"{type(e).__name__}: {e}\n{traceback.format_exc()}"}
+    finally:
+        try:
+            signal.alarm(0)
+        except (ValueError, OSError):
+            pass
 
 
 # ---------------------------------------------------------------------------------------------
